@@ -29,6 +29,11 @@ def gen_history(rng, mode, cursor_ops):
     ops = []
     for i in range(n):
         r = rng.random()
+        if ops and rng.random() < 0.08:
+            # the application looks at the screen in between (capture / refresh / expect send a request): what was
+            # received stays where it is until the server sends something else
+            ops.append(("refresh", rng.randrange(2)))
+            continue
         sent = [o for o in ops if o[0] in ("upd", "fill")]
         if sent and rng.random() < 0.15:
             # the server repaints what it has painted before, byte for byte (a window went away), or the same
@@ -66,10 +71,16 @@ def run_real(mode, nocursor, ops, pseudocursor=False):
     c.factory.nocursor = nocursor
     c.factory.pseudocursor = pseudocursor          # --localcursor; with --nocursor the screen must still stay cursor-free
     c.image_mode = mode
+    from twisted.internet.testing import StringTransport
+    c.makeConnection(StringTransport())
+    c.width, c.height = 16, 12
     flags = []
     for op in ops:
         try:
-            if op[0] == "upd":
+            if op[0] == "refresh":
+                c.refreshScreen(bool(op[1]))
+                c.deferred = None
+            elif op[0] == "upd":
                 c.updateRectangle(*op[1:])
             elif op[0] == "resize":
                 c.updateDesktopSize(op[1], op[2])
@@ -121,7 +132,7 @@ def run(tier, seed, model):
         cases.append((mode, nocursor, gen_history(rng, mode, cursor_ops)))
     answers = None
     if model is not None:
-        answers = model.call_many([("screen_ops", [nc, MODES[m][0], [to_sx(o) for o in ops]]) for m, nc, ops in cases])
+        answers = model.call_many([("screen_ops", [nc, MODES[m][0], [to_sx(o) for o in ops if o[0] != "refresh"]]) for m, nc, ops in cases])
     for i, (mode, nocursor, ops) in enumerate(cases):
         camp.evaluations += 1
         pc = nocursor and (i % 2 == 0)
@@ -144,7 +155,7 @@ def run(tier, seed, model):
         if answers is not None:
             mf, ms = answers[i][0], answers[i][1]
             mscr = None if not ms else ((ms[0], ms[1]), bytes(ms[2]))
-            if list(mf) != flags or mscr != scr:
+            if list(mf) != [f for o, f in zip(ops, flags) if o[0] != "refresh"] or mscr != scr:
                 camp.model_mismatches.append({"property": "C12", "case": {"mode": mode, "nocursor": nocursor, "n_ops": len(ops)},
                                               "what": f"mode {mode} nocursor={nocursor}: model flags {mf} / size {mscr and mscr[0]} vs "
                                                       f"client flags {flags} / size {scr and scr[0]}"})
